@@ -141,7 +141,7 @@ def _grid(axes: Dict[str, List[Any]]):
 # class -> (module, grid points (dicts of field -> plain value), predicate)
 def spec_tables():
     daily_axes = {
-        "alpha_final": [None, "adaptive", "other", -100.0, -100.0 - 1e-6, 2.0, 2.0 + 1e-6, 1.5],
+        "alpha_final": [None, "adaptive", "other", -100.0, -100.0 - 1e-6, 2.0, 2.0 + 1e-6, 1.5, 0.0],   # 0.0: valid and falsy
         "alpha_final_type": [None, "all", "last"],
         "alpha_minimum": [-100.0],
         "final_bounds_scalar": [None, -1.0, 0.0, 0.5, 1],
@@ -153,16 +153,16 @@ def spec_tables():
         "n_bins": [None, 6],
         "bin_width": [None, 12.0],   # ge=1 is pydantic's own (trusted); only values that reach the validator
         "include_edge_bins": [True, False],
-        "edge_bin_rate": [None, "heuristic", 0.5],
-        "edge_bin_percent": [None, 0.0425],
+        "edge_bin_rate": [None, "heuristic", 0.5, 0.0],     # 0.0: valid and falsy (`not value` is not `value is None`)
+        "edge_bin_percent": [None, 0.0425, 0.0],
     }
     return {
         "DailySettings": (DS, list(_grid(daily_axes)), _daily_invalid),
-        "Split_Selection_Definition": (DS, [{"reduce_splits_num_std": r} for r in (None, [1.4], [1.4, 0.89, 1.0], [1.4, 0.89], [0, 1.0], [1.0, 0], [-1.0, 1.0], [1.0, -1.0], [1e-9, 1e-9])], _split_invalid),
+        "Split_Selection_Definition": (DS, [{"reduce_splits_num_std": r} for r in (None, [], [1.4], [1.4, 0.89, 1.0], [1.4, 0.89], [0, 1.0], [1.0, 0], [-1.0, 1.0], [1.0, -1.0], [1e-9, 1e-9])], _split_invalid),
         "Season_Definition": (DS, [dict(p, options=["summer", "shoulder", "winter"]) for p in _one_off(_MONTHS, ["summer", "shoulder", "winter"], "spring")], _season_invalid),
         "Weekday_Weekend_Definition": (DS, [dict(p, options=["weekday", "weekend"]) for p in _one_off(_DAYS, ["weekday", "weekend"], "holiday")], _season_invalid),
         "TemperatureBinSettings": (HS, list(_grid(tb_axes)), _tbin_invalid),
-        "ElasticNetSettings": (HS, list(_grid({"adaptive_weights": [True, False], "adaptive_weight_max_iter": [None, 100], "adaptive_weight_tol": [None, 1e-4]})), _adaptive_invalid),
+        "ElasticNetSettings": (HS, list(_grid({"adaptive_weights": [True, False], "adaptive_weight_max_iter": [None, 1, 100], "adaptive_weight_tol": [None, 0.0, 1e-4]})), _adaptive_invalid),
     }
 
 
